@@ -217,11 +217,20 @@ def run_history(rng, version, flavour, steps, *, profile=None, calls=True, persi
         elif calls and x < 0.16:
             f = rng.choice(gen.fws + [(7, 7)])
             nids = rng.choice([gen.n(), [gen.n(), gen.n()], [], 9])
-            drv.update_fw(nids, f[0], f[1], hexfile if (hexfile and rng.random() < 0.6) else None)
-            if f in gen.fws:
-                gen.ota_nodes = (nids if isinstance(nids, list) else [nids])[:2]
-        elif calls and x < 0.18:
+            r_ = rng.random()
+            if hexfile and r_ < 0.12:
+                # an image file that cannot be used: nothing may be scheduled
+                drv.update_fw(nids, f[0], f[1], hexfile + rng.choice([".eof", ".zero", ".garbage", ".missing"]))
+            elif r_ < 0.16:
+                drv.update_fw(nids, rng.choice(["x", "", f[0]]), rng.choice(["1.0", "", "v2"]), None)
+            else:
+                drv.update_fw(nids, f[0], f[1], hexfile if (hexfile and rng.random() < 0.6) else None)
+                if f in gen.fws:
+                    gen.ota_nodes = (nids if isinstance(nids, list) else [nids])[:2]
+        elif calls and x < 0.17:
             drv.set_metric(rng.random() < 0.5)
+        elif calls and x < 0.18:
+            drv.send(rng.choice(["255;255;3;0;2;\n", f"{gen.n()};{gen.c()};1;0;2;1\n", "0;255;3;0;18;\n"]))
         elif persist and x < 0.18 + tick_p:
             drv.tick()
         elif persist and x < 0.18 + tick_p + restart_p:
